@@ -555,39 +555,101 @@ def check_init_species(ctx):
            "parameters are set on the model by name and the interface is bound to the model's own array", str(txt))
 
 
+def eval_likelihood_function(cls, f, ll, log_space):
+    """get_likelihood_function partially evaluated (templates.StrExec, methods of the class followed) on a sample: defaults {a, b, c},
+    theta = (c: 0.0, a: 5.0).  -> (parameters in force when the likelihood is evaluated, returned value, problem)"""
+    from ..templates import StrExec, Hole, UNKNOWN
+    calls = []
+
+    def hook(n, ex):
+        if isinstance(n.func, ast.Attribute):
+            recv = src(n.func.value).replace(' ', '')
+            if recv == ll and n.func.attr == 'set_init_params' and len(n.args) == 1:
+                v = ex.ev(n.args[0])
+                calls.append(('set', dict(v) if isinstance(v, dict) else v))
+                return 0
+            if recv == ll and n.func.attr in ('py_log_likelihood', 'get_log_likelihood'):
+                calls.append(('evaluate',))
+                return Hole('COST')
+            if recv == 'self' and n.func.attr == 'check_prior':
+                return Hole('LP')
+            nm = src(n.func)
+            if nm in ('np.isfinite', 'numpy.isfinite', 'math.isfinite') and len(n.args) == 1:
+                return True
+            if nm in ('np.isnan', 'np.isinf', 'math.isnan', 'math.isinf') and len(n.args) == 1:
+                return False
+            if nm in ('np.exp', 'numpy.exp', 'math.exp') and len(n.args) == 1:
+                v = ex.ev(n.args[0])
+                return 'exp(%s)' % (v,) if v is not UNKNOWN else None      # (a positive number: plain text, not a hole)
+        return None
+    theta = [-0.5, 5.0] if log_space else [0.0, 5.0]
+    base_env = {ll: Hole('LIKELIHOOD'), 'self.params_to_estimate': ['c', 'a'], 'self.log_space_parameters': log_space,
+                'self.default_parameters': {'a': 1.0, 'b': 2.0, 'c': 3.0}, 'self.debug': False,
+                'self.prior': {'a': ['uniform', 0, 10], 'c': ['gaussian', 0, 1, 'positive']}}
+    methods = {m_.name: m_ for m_ in cls.body if isinstance(m_, ast.FunctionDef) and m_.name not in ('check_prior', 'get_likelihood_function')}
+    # what setup_likelihood_function leaves in the object (two trajectories whose parameter conditions have different keys)
+    env = dict(base_env)
+    setup = [m_ for m_ in cls.body if isinstance(m_, ast.FunctionDef) and m_.name == 'setup_likelihood_function']
+    if setup:
+        sf = setup[-1]
+        senv = dict(base_env)
+        for a_ in sf.args.args[1:]:
+            senv[a_.arg] = Hole(a_.arg.upper())
+        for a_, dv in zip(sf.args.args[len(sf.args.args) - len(sf.args.defaults):], sf.args.defaults):
+            if isinstance(dv, ast.Constant):
+                senv[a_.arg] = dv.value
+        if 'parameter_conditions' in senv:
+            senv['parameter_conditions'] = [{}, {'b': 9.0}]
+        sx = StrExec(senv, tracked=set(), frozen=set(a_.arg for a_ in sf.args.args[1:]))
+        sx.methods = methods
+        try:
+            sx.run(sf.body)
+        except AnalysisError:
+            pass
+        for k_, v_ in sx.env.items():
+            if isinstance(k_, str) and k_.startswith('self.') and k_ not in base_env and v_ is not UNKNOWN:
+                env[k_] = v_
+    env[f.args.args[1].arg] = list(theta)
+    ex = StrExec(env, tracked=set(), frozen={f.args.args[1].arg}, call_hook=hook)
+    ex.methods = methods
+    ex.run(f.body)
+    if ex.aborted:
+        return None, None, 'the method %s' % ex.aborted
+    if ('evaluate',) not in calls:
+        return None, None, 'the likelihood is not evaluated for an in-support theta'
+    eff = {}
+    for c_ in calls[:calls.index(('evaluate',))]:
+        if not isinstance(c_[1], dict) or any(v is UNKNOWN for v in c_[1].values()):
+            raise AnalysisError('get_likelihood_function: the parameters handed to set_init_params could not be evaluated (%r)' % (c_[1],))
+        eff.update(c_[1])
+    return eff, ex.returned, None
+
+
 def check_evaluation(ctx):
+    from ..templates import UNKNOWN
     for cname, ll in (('DeterministicInference', 'self.LL_det'), ('StochasticInference', 'self.LL_stoch')):
         cls = get_class(ctx, 'pid_interfaces', cname)
+        base = get_class(ctx, 'pid_interfaces', 'PIDInterface')
         f = meth(cls, 'get_likelihood_function')
         ctx.functions.add('pid_interfaces:%s.get_likelihood_function' % cname)
-        en = paths.Enumerator()
-        ps = en.run(f.body, paths.State())
-        ctx.paths += len(ps)
         problems = []
         n_eval = 0
-        for p in ps:
-            txt = [util.stmt_key(e.node).replace(' ', '') for e in p.stmts()]
-            i_ll = [i for i, t in enumerate(txt) if '%s.py_log_likelihood()' % ll in t]
-            if not i_ll:
+        both = ast.ClassDef(name=cname, bases=[], keywords=[], body=list(base.body) + list(cls.body), decorator_list=[])
+        for log_space in (False, True):
+            eff, ret, prob = eval_likelihood_function(both, f, ll, log_space)
+            if prob:
+                problems.append(prob)
                 continue
             n_eval += 1
-            i_ll = i_ll[0]
-            pre = txt[:i_ll]
-            d = '%s.set_init_params(self.default_parameters)' % ll
-            s_ = '%s.set_init_params(params_dict)' % ll
-            if d not in pre or s_ not in pre or pre.index(d) > pre.index(s_):
-                problems.append('defaults are not restored before theta is set, before the likelihood')
-            cost = txt[i_ll].split('=')[0]
-            if 'ln_prob=lp+%s' % cost not in txt[i_ll:] and 'ln_prob=%s+lp' % cost not in txt[i_ll:]:
-                problems.append('the value is not log-prior + cost')
-            if txt[-1] != 'returnln_prob':
-                problems.append('returns %s' % txt[-1])
-        loops = [s for s in f.body if isinstance(s, ast.For)]
-        ok_pair = len(loops) == 1 and src(loops[0].iter).replace(' ', '') == 'zip(self.params_to_estimate,params)'
-        if not ok_pair:
-            problems.append('theta is not paired with params_to_estimate position by position')
+            want = {'a': 'exp(5.0)', 'b': 2.0, 'c': 'exp(-0.5)'} if log_space else {'a': 5.0, 'b': 2.0, 'c': 0.0}
+            if eff != want:
+                problems.append('with defaults {a: 1, b: 2, c: 3} and theta (c = 0.0 / -0.5, a = 5.0)%s the likelihood is evaluated with %r: not the defaults '
+                                'overridden by theta, name by name' % (' in log space' if log_space else '', eff))
+            if ret is UNKNOWN or str(ret) not in ('LPCOST', 'COSTLP'):
+                problems.append('the value returned is %r, not log-prior + cost' % (ret,))
         ctx.ob('R15.5-function-of-theta', cname, not problems and n_eval > 0, ctx.loc('pid_interfaces', f),
-               'each evaluation: reset parameters to the stored defaults, set theta by name, evaluate; value = log-prior + cost', '; '.join(sorted(set(problems))))
+               'each evaluation: the likelihood sees the stored defaults overridden by theta (name by name, a zero included; exp(theta) in log space); '
+               'value = log-prior + cost', '; '.join(sorted(set(problems))))
     cls = get_class(ctx, 'pid_interfaces', 'PIDInterface')
     f = meth(cls, '__init__')
     txt = [util.stmt_key(s).replace(' ', '') for s in ast.walk(f) if isinstance(s, ast.stmt)]
